@@ -58,7 +58,30 @@ def run_unit(name, rlimit=None, seed=None, timeout=900, prop=None):
     retry with contract lines attached to changed code dropped (levels 1, 2): the function contracts stay, stale loop
     invariants / proof hints go.  A unit verified that way is as good as any; one that then fails is reported as a
     violation of the obligations that no longer hold (DESIGN.md section 8, Brittleness)."""
+    U.INLINE = set()
     r = _run_unit_level(name, 0, rlimit, seed, timeout, prop)
+    if r['status'] == 'undecided' and r.get('frontend') and r.get('changed'):
+        # rule R33: the changed code calls functions the unit does not know -- new helpers of the same file are inlined at their call sites
+        inl = set()
+        for _ in range(3):
+            names = set(re.findall(r'cannot find function `(\w+)`', r['reason'] or '')) | set(re.findall(r'no method named `(\w+)` found', r['reason'] or '')) \
+                | set(re.findall(r'no function or associated item named `(\w+)`', r['reason'] or ''))
+            names -= inl
+            if not names:
+                break
+            inl |= names
+            U.INLINE = set(inl)
+            r_in = _run_unit_level(name, 0, rlimit, seed, timeout, prop)
+            r_in['inlined_helpers'] = sorted(inl)
+            if r_in['status'] in ('ok', 'failed'):
+                return r_in
+            if not (r_in['status'] == 'undecided' and r_in.get('frontend')):
+                # e.g. the helper has a shape that is not inlined: keep the original answer
+                if r_in.get('reason'):
+                    r['reason'] = '%s; inlining the new helper(s) %s: %s' % (r['reason'], ', '.join(sorted(inl)), r_in['reason'])
+                U.INLINE = set()
+                break
+            r = dict(r_in, changed=True)
     if r['status'] == 'undecided' and r.get('frontend') and r.get('changed'):
         last = None
         for level in (1, 2):
